@@ -85,9 +85,11 @@ Definition inbound_day_start (out : journey) : Z :=
 
 (** ---------- what drives one traveller-bot on one day ---------- *)
 (** [c_dist] = the distance to backfill that Engine.Propose computes for the two planned flights (sum of
-    distance and taxi overhead, less the configured correction): the protocol does not depend on it *)
+    distance and taxi overhead, less the configured correction): the protocol does not depend on it.
+    The distance of a flight is looked up from the airports table by NewFlight: a function of the
+    two airport codes, given to the day loop as [dist]. *)
 Record plan_choice := mkChoice {
-  c_len : Z; c_day : Z; c_from : Z; c_to : Z; c_dout : K; c_din : K; c_dist : K; c_r : Z; c_dur : Z }.
+  c_len : Z; c_day : Z; c_from : Z; c_to : Z; c_dist : K; c_r : Z; c_dur : Z }.
 
 Record day_input := mkDay {
   di_params : params; di_share : K; di_pc : pcstate N; di_debit : bool; di_pred : predictor N;
@@ -96,7 +98,8 @@ Record day_input := mkDay {
 
 Record bot := mkBot { b_trav : traveller; b_pend : list journey }.
 
-Definition journey_today (d : Z) (j : journey) : bool := day_of (fstart (j_flight j)) =? d.
+Definition jday (j : journey) : Z := day_of (fstart (j_flight j)).
+Definition journey_today (d : Z) (j : journey) : bool := jday j =? d.
 
 (** the distance travelled that Engine.Propose computes for the planned flights: newest flight first *)
 Definition bot_travelled (d_out d_in : K) : K := kadd N (kadd N (k0 N) d_in) d_out.
